@@ -145,3 +145,41 @@ Example C03_example_real : rwf GS exR /\ vreal GS [g 1 0; g (-2) 0] /\
   ap GS GRI Adj exR [g 1 0; g (-2) 0] <> zeros GS 2.
 Proof. split; [| split; [reflexivity | split; [vm_compute; reflexivity | vm_compute; discriminate]]].
   cbn. repeat split; auto; try (left; cbn; repeat split; repeat constructor); reflexivity. Qed.
+
+(* ---- toreal/toimag BELOW stacks, apply_columns and Kronecker: [rwf] (and
+   with it C03_real_fwd_dense / C03_real_adj_dense / C03_real_output_real /
+   C03_real_dot_test above) covers VStack, HStack, BlockDiag, Block, Cols and
+   Kron nodes above a RealImag node.  Their statements are those theorems;
+   the link to the C-linear level is the erasure: ---- *)
+Theorem C03_real_erase : forall (S : StarRing) (RI : ReIm S) (e : expr S), rwf S e ->
+  wf S (erase S RI e) /\ dense S RI (erase S RI e) = dense S RI e /\
+  forall d x, vreal S x -> length x = inlen S d e -> ap S RI d e x = ap S RI d (erase S RI e) x.
+Proof. intros S RI e R. destruct (rwf_erase S RI e R). repeat split; auto. intros; apply ap_erase; auto. Qed.
+Print Assumptions C03_real_erase.
+(* non-vacuity: toimag / toreal of complex operators below a Block, a column
+   selection and a Kronecker product *)
+Definition exRS : expr GS :=
+  Cols [2%nat; 0%nat]
+    (Kron (Leaf 1 2 [[g 1 0; g (-1) 0]])
+          (Block GS [[RealImag true true false (Mul (Scale i_ exA) (AdjW exB)); Scale (g 2 0) (RealImag true true true exC)];
+                     [BlockDiag [Leaf 1 1 [[g 3 0]]; RealImag true true false (Leaf 1 1 [[g 1 2]])]; TranspW (RealImag true true true exC)]])).
+Example C03_example_real_stacks : rwf GS exRS /\ shape GS exRS = (4%nat, 2%nat) /\
+  ap GS GRI Adj exRS [g 1 0; g (-2) 0; g 0 0; g 3 0] =
+    mv GS (ctranspose GS 2 (dense GS GRI exRS)) [g 1 0; g (-2) 0; g 0 0; g 3 0] /\
+  ap GS GRI Adj exRS [g 1 0; g (-2) 0; g 0 0; g 3 0] <> zeros GS 2 /\
+  ap GS GRI Fwd exRS [g 1 0; g 5 0] = mv GS (dense GS GRI exRS) [g 1 0; g 5 0].
+Proof. split; [| split; [reflexivity | split; [vm_compute; reflexivity | split; [vm_compute; discriminate | vm_compute; reflexivity]]]].
+  cbn. repeat split; auto; repeat constructor; cbn; auto; try lia;
+    try (left; cbn; repeat split; repeat constructor);
+    try (intros [Q|Q]; try discriminate; try destruct Q; fail). Qed.
+
+(* The side condition "real scalars" ([isreal] in [rwf] for Scale) is
+   necessary: with a complex scalar above toreal the tree no longer acts like
+   its dense matrix, even on real inputs:  (i * toreal([[1]]))**2 maps x = 1
+   to i*Re(i*Re(1)) = 0 whereas the dense matrix is (i)^2 = -1. *)
+Theorem C03_real_complex_scalar_refuted : exists (e : expr GS) x,
+  e = Pow (Scale i_ (RealImag true true true (Leaf 1 1 [[g 1 0]]))) 2 /\
+  vreal GS x /\ length x = cols GS e /\ ap GS GRI Fwd e x <> mv GS (dense GS GRI e) x.
+Proof. exists (Pow (Scale i_ (RealImag true true true (Leaf 1 1 [[g 1 0]]))) 2), [g 1 0].
+  repeat split; try reflexivity. vm_compute; discriminate. Qed.
+Print Assumptions C03_real_complex_scalar_refuted.
